@@ -44,7 +44,13 @@ static WORKER_SEQ: std::sync::atomic::AtomicUsize = std::sync::atomic::AtomicUsi
 
 impl Worker {
     pub fn spawn() -> std::io::Result<Worker> {
+        // a harness binary that was rebuilt while this run is in progress shows up as
+        // "<path> (deleted)": the rebuilt file at the same path speaks the same protocol
         let exe = std::env::current_exe()?;
+        let exe = match exe.to_str().and_then(|s| s.strip_suffix(" (deleted)")) {
+            Some(p) => std::path::PathBuf::from(p),
+            None => exe,
+        };
         let n = WORKER_SEQ.fetch_add(1, std::sync::atomic::Ordering::SeqCst);
         // under the run's own scratch area (removed when the run ends), not under /tmp
         let wdir = std::path::Path::new(crate::engine::VERIF).join("work").join(format!("workers-{}", std::process::id()));
